@@ -553,6 +553,7 @@ def run_case(case):
         return res
     groups, extras = encode_ainfo(lf, intern)
     labeled = labeled_of(lf)
+    res["n_query_like"] = len(labeled)
     if kn:
         labeled = labeled + [(q, n, l) for q, n, l in lf.get_names_with_label() if l == lf.LABEL_NAMED]
     evidence = evidence_of(lf)
@@ -613,6 +614,7 @@ def run_case(case):
                 break
             dv = dag_values(dag, assign, intern)
             pairs = epairs
+            in_ev_world = False
             if not pe:
                 pairs = lpairs + epairs
                 relevant += 1
@@ -620,9 +622,10 @@ def run_case(case):
                   and all(sum(1 for i in ms if assign.get(i)) <= 1 for ms in ad_members.values())):
                 pairs = lpairs + epairs
                 relevant += 1
+                in_ev_world = True
             for (kf, kd) in pairs:
                 if key_value(s, kf) != key_value(dv, kd):
-                    bad = (assign, kf, kd, key_value(s, kf), key_value(dv, kd))
+                    bad = (assign, kf, kd, key_value(s, kf), key_value(dv, kd), in_ev_world)
                     break
             if bad:
                 break
@@ -634,7 +637,9 @@ def run_case(case):
             res["violations"].append(("break-cycles-value" + ("-under-propagated-evidence" if pe else ""),
                                       "node %r of the cyclic program has least-model value %r but its LogicDAG node %r has value %r under %r%s"
                                       % (bad[1], bad[3], bad[2], bad[4], {k: v for k, v in bad[0].items()},
-                                         " (a world that satisfies the evidence; lookup_evidence = %r)" % (res["evm"],) if pe else "")))
+                                         " (%s; lookup_evidence = %r)" % ("a world that satisfies the evidence" if bad[5] else
+                                                                          "an evidence name, in a world that does not satisfy the evidence",
+                                                                          res["evm"]) if pe else "")))
     # ---------------- implementation: Clark's completion
     try:
         cnf = CNF.create_from(dag)
@@ -860,7 +865,7 @@ def run(ctx):
             continue
         usable.append(res)
         nontrivial = (res["cyclic"] or res["negation"]) and any(nd[0] != "atom" for nd in res["F"])
-        ctx.case(("F", tuple(res["F"]), tuple(res["labeled_keys"]), tuple(res["evidence_keys"])), nontrivial,
+        ctx.case(("F", tuple(res["F"]), tuple(res["labeled_keys"]), tuple(res["evidence_keys"]), tuple(res["evm"])), nontrivial,
                  sample={"kind": res["kind"], "F": [list(map(str, nd)) for nd in res["F"]][:12], "D_nodes": len(res["D"]),
                          "clauses": len(res["clauses"]), "atoms": res["nids"]})
         ctx.count("cyclic" if res["cyclic"] else "acyclic")
@@ -921,7 +926,10 @@ def run(ctx):
         if o.startswith("OK "):
             r = orc.Reader(o[3:])
             Dm, Lm, Em = r.graph(), r.keys(), r.keys()
-            ok = (Dm == res["D"] and Lm == res["D_labeled"] and Em == res["D_evidence"])
+            # keep_named: the LABEL_NAMED entries of the target's name table are also written by add_atom / add_and / add_or
+            # (node names, not modelled) and can be overwritten in the evidence pass: they are judged semantically only
+            nq = res["n_query_like"]
+            ok = (Dm == res["D"] and Lm[:nq] == res["D_labeled"][:nq] and len(Lm) == len(res["D_labeled"]) and Em == res["D_evidence"])
         if ok:
             agree += 1
         elif len([b for b in ctx.broken if b.startswith("correspondence:break_cycles")]) < 3:
@@ -939,28 +947,43 @@ def run(ctx):
         ctx.cov["propagate_evidence_cases"] = len(pe_cases)
         ctx.cov["evidence_map_changes_dag"] = sum(1 for (res, o), y in zip(pe_cases, outn) if o != y)
         ctx.cov["break_model_equals_impl_with_evidence_map"] = sum(
-            1 for res, o in pe_cases if o.startswith("OK ") and (lambda r: (r.graph(), r.keys(), r.keys()))(orc.Reader(o[3:]))
-            == (res["D"], res["D_labeled"], res["D_evidence"]))
+            1 for res, o in pe_cases if o.startswith("OK ") and (lambda r, nq: (r.graph(), r.keys()[:nq], r.keys()))(orc.Reader(o[3:]), res["n_query_like"])
+            == (res["D"], res["D_labeled"][:res["n_query_like"]], res["D_evidence"]))
 
-    # 2. validate_break on the implementation's DAG
+    # 2. validate_break on the implementation's DAG (validate_break_ev when the source carries a lookup_evidence map:
+    #    evidence pairs in every world, query pairs in the worlds satisfying the evidence and the AD constraints)
     lines = []
+    enc_pairs = lambda ps: orc.enc_list(ps, lambda p: orc.enc_key(p[0]) + " " + orc.enc_key(p[1]))
     for res in usable:
-        pairs = list(zip(res["evidence_keys"], res["D_evidence"]))
-        if "pe" not in res["kind"].split("+"):   # with a lookup_evidence map the query names only agree in the worlds satisfying the evidence
-            pairs = list(zip(res["labeled_keys"], res["D_labeled"])) + pairs
-        lines.append("VBREAK %s %s %s" % (orc.enc_graph(res["F"]), orc.enc_graph(res["D"]),
-                                          orc.enc_list(pairs, lambda p: orc.enc_key(p[0]) + " " + orc.enc_key(p[1]))))
+        lpairs = list(zip(res["labeled_keys"], res["D_labeled"]))
+        epairs = list(zip(res["evidence_keys"], res["D_evidence"]))
+        if "pe" in res["kind"].split("+"):
+            evs = [(n, v > 0) for n, v in zip(res["evidence_keys"], res["evidence_want"]) if v != 0]
+            members = {}
+            for aid, grp, is_extra in res["ainfo"][0]:
+                if not is_extra:
+                    members.setdefault(grp, []).append(aid)
+            lines.append("VBREAKEV %s %s %s %s %s %s" % (
+                orc.enc_graph(res["F"]), orc.enc_graph(res["D"]), enc_pairs(epairs), enc_pairs(lpairs),
+                orc.enc_list(evs, lambda p: orc.enc_key(p[0]) + (" 1" if p[1] else " 0")),
+                orc.enc_list(sorted(members.values()), lambda ms: orc.enc_list(ms, str))))
+        else:
+            lines.append("VBREAK %s %s %s" % (orc.enc_graph(res["F"]), orc.enc_graph(res["D"]), enc_pairs(lpairs + epairs)))
     out = ctx.oracle(exe, lines)
     okv = 0
+    okve = 0
     for res, o in zip(usable, out):
         if o == "1":
             okv += 1
+            if "pe" in res["kind"].split("+"):
+                okve += 1
         else:
             # the judge above found no semantic difference (else a violation was reported): validator / encoding problem
             if not res["violations"] and len([b for b in ctx.broken if b.startswith("validator:validate_break")]) < 3:
-                ctx.broken.append("validator:validate_break rejects a DAG the reference semantics accepts: %s -> %s"
-                                  % (str(replay_text(res))[:500], o))
+                ctx.broken.append("validator:validate_break%s rejects a DAG the reference semantics accepts: %s -> %s"
+                                  % ("_ev" if "pe" in res["kind"].split("+") else "", str(replay_text(res))[:500], o))
     ctx.cov["validate_break_accepts"] = okv
+    ctx.cov["of_those_validate_break_ev"] = okve
 
     # 3. Clark model: clause list (as a list and as a set), atom count, weights, names, constraints
     lines = []
